@@ -263,6 +263,38 @@ func init() {
 		sl := e.allocSlice(st, types.Typ[types.Uint8], ln, ln)
 		k(st, Val{Elems: []Val{sl, e.freshVal(st, fn.Signature.Results().At(1).Type(), "pb_err")}})
 	}
+	// context: no cancellation semantics; contexts are opaque non-nil values, Err may be nil or not
+	nonNilIface := func(hint string) LibFn {
+		return func(e *Engine, st *State, fn *ssa.Function, args []Val, pos token.Pos, k Kont) {
+			res := e.havocResults(st, fn.Signature, hint)
+			r0 := res
+			if res.Elems != nil {
+				r0 = res.Elems[0]
+			}
+			if len(r0.T) == 2 {
+				e.assume(st, e.tb.Neq(r0.ifTag(), e.tb.Int(0)))
+			}
+			if res.Elems != nil && len(res.Elems) > 1 && len(res.Elems[1].T) == 1 {
+				e.assume(st, e.tb.Neq(res.Elems[1].T[0], e.tb.Int(0))) // cancel function is non-nil
+			}
+			k(st, res)
+		}
+	}
+	for _, n := range []string{"context.Background", "context.TODO", "context.WithTimeout", "context.WithCancel", "context.WithDeadline", "context.WithValue",
+		"(*polycry.pt/poly-go/sync.Closer).Ctx"} {
+		libSpecs[n] = nonNilIface("ctx")
+	}
+	for _, n := range []string{"Err", "Done", "Deadline", "Value"} {
+		n := n
+		libIface["context.Context."+n] = func(e *Engine, st *State, c *ssa.CallCommon, recv Val, args []Val, pos token.Pos, k Kont) {
+			k(st, e.havocResults(st, c.Signature(), "ctx_"+n))
+		}
+	}
+	for _, n := range []string{"(*polycry.pt/poly-go/sync.Closer).IsClosed", "(*polycry.pt/poly-go/sync.Closer).Closed"} {
+		libSpecs[n] = func(e *Engine, st *State, fn *ssa.Function, args []Val, pos token.Pos, k Kont) {
+			k(st, e.havocResults(st, fn.Signature, "closer"))
+		}
+	}
 	libSpecs["time.Unix"] = pureUF("time_Unix")
 	libSpecs["(time.Time).UnixNano"] = pureUF("time_UnixNano")
 	libSpecs["(time.Time).Unix"] = pureUF("time_UnixS")
